@@ -9,7 +9,8 @@ LEVEL = ("Static structural conditions: in every Chain::draw the tuning flag rep
          "function of num_tune and step_size_window only (R3); after warmup adapt only copies statistics and calls update_stepsize(.., true) "
          "unconditionally; in the final window only the late estimator and update_stepsize(is_last = draw == num_tune-1); step size is written "
          "only by Strategy::init / update_stepsize (R4). Value questions (jitter band) are not decided; the num_tune = 0 clause is decided for the constructors by R5 (panic guards evaluated with num_tune := 0)."
-         " Added (round 5): in the final window update_stepsize runs after the estimator update of the draw (R4 order clause).")
+         " Added (round 5): in the final window update_stepsize runs after the estimator update of the draw (R4 order clause)."
+         " Added (round 6): the draw counter the schedule is compared with has no writer besides the constructor and draw() (R6 = C03-R3 writers clause).")
 EXPLANATION = "Dominance, control-dependence and edge-relation analysis on the MIR of Chain::draw and AdaptStrategy::adapt impls; who-may-call on the call graph."
 TRUSTED = ["rustc nightly MIR", "nutsfacts extractor", "rules/c06.py, rules/rel.py"]
 TECHNIQUE = "static analysis: dominance / control-dependence edge relations on MIR + who-may-call"
